@@ -74,6 +74,9 @@ impl ToTimerValue for u64 {
 
 impl ToTimerValue for Vec<u64> {
     fn try_to_value(self) -> MetricResult<MetricValue> {
+        if self.is_empty() {
+            return Err(MetricError::from((ErrorKind::InvalidInput, "empty packed value")));
+        }
         Ok(MetricValue::PackedUnsigned(self))
     }
 }
@@ -91,6 +94,9 @@ impl ToTimerValue for Duration {
 
 impl ToTimerValue for Vec<Duration> {
     fn try_to_value(self) -> MetricResult<MetricValue> {
+        if self.is_empty() {
+            return Err(MetricError::from((ErrorKind::InvalidInput, "empty packed value")));
+        }
         if self.iter().any(|x| x.as_millis() > u64::MAX as u128) {
             Err(MetricError::from((ErrorKind::InvalidInput, "u64 overflow")))
         } else {
@@ -180,18 +186,27 @@ impl ToHistogramValue for Duration {
 
 impl ToHistogramValue for Vec<u64> {
     fn try_to_value(self) -> MetricResult<MetricValue> {
+        if self.is_empty() {
+            return Err(MetricError::from((ErrorKind::InvalidInput, "empty packed value")));
+        }
         Ok(MetricValue::PackedUnsigned(self))
     }
 }
 
 impl ToHistogramValue for Vec<f64> {
     fn try_to_value(self) -> MetricResult<MetricValue> {
+        if self.is_empty() {
+            return Err(MetricError::from((ErrorKind::InvalidInput, "empty packed value")));
+        }
         Ok(MetricValue::PackedFloat(self))
     }
 }
 
 impl ToHistogramValue for Vec<Duration> {
     fn try_to_value(self) -> MetricResult<MetricValue> {
+        if self.is_empty() {
+            return Err(MetricError::from((ErrorKind::InvalidInput, "empty packed value")));
+        }
         if self.iter().any(|x| x.as_nanos() > u64::MAX as u128) {
             Err(MetricError::from((ErrorKind::InvalidInput, "u64 overflow")))
         } else {
@@ -228,12 +243,18 @@ impl ToDistributionValue for f64 {
 
 impl ToDistributionValue for Vec<u64> {
     fn try_to_value(self) -> MetricResult<MetricValue> {
+        if self.is_empty() {
+            return Err(MetricError::from((ErrorKind::InvalidInput, "empty packed value")));
+        }
         Ok(MetricValue::PackedUnsigned(self))
     }
 }
 
 impl ToDistributionValue for Vec<f64> {
     fn try_to_value(self) -> MetricResult<MetricValue> {
+        if self.is_empty() {
+            return Err(MetricError::from((ErrorKind::InvalidInput, "empty packed value")));
+        }
         Ok(MetricValue::PackedFloat(self))
     }
 }
